@@ -145,9 +145,24 @@ impl Validator {
                 }
             }
             if self.has_constraint_reference(&key) {
-                // the definition stays visible while it is linked: a constraint may refer to the
-                // named numbers of the type it constrains
-                match self.tlds.get(&key).cloned().ok_or_else(|| LinkerError {
+                // an INTEGER type with named numbers stays visible while it is linked: its
+                // constraint may refer to the named numbers of the type it constrains
+                let has_named_numbers = matches!(
+                    self.tlds.get(&key),
+                    Some(ToplevelDefinition::Type(ToplevelTypeDefinition {
+                        ty: ASN1Type::Integer(Integer {
+                            distinguished_values: Some(_),
+                            ..
+                        }),
+                        ..
+                    }))
+                );
+                let definition = if has_named_numbers {
+                    self.tlds.get(&key).cloned()
+                } else {
+                    self.tlds.remove(&key)
+                };
+                match definition.ok_or_else(|| LinkerError {
                     pdu: Some(key.clone()),
                     details: "Could not find toplevel declaration to remove!".into(),
                     kind: LinkerErrorType::MissingDependency,
